@@ -114,7 +114,8 @@ Definition wf_frame (f : frame) : Prop :=
   | Padding | Ping | HandshakeDone => True
   | Ack l d fr rs e =>
       varint_ok l /\ varint_ok d /\ varint_ok fr /\ ranges_ok rs /\ varint_ok (zlen rs) /\
-      match e with Some (a, b, c) => varint_ok a /\ varint_ok b /\ varint_ok c | None => True end
+      match e with Some (a, b, c) => varint_ok a /\ varint_ok b /\ varint_ok c | None => True end /\
+      ack_valid l fr rs = true
   | ResetStream s e fs => varint_ok s /\ varint_ok e /\ varint_ok fs
   | StopSending s e => varint_ok s /\ varint_ok e
   | Crypto off d => varint_ok off /\ off + zlen d <= VARINT_MAX
@@ -208,7 +209,7 @@ Proof.
   - reflexivity.
   - reflexivity.
   - (* Ack *)
-    destruct Hwf as (H1 & H2 & H3 & H4 & H5 & H6). unfold be_ack. rewrite <- ?app_assoc.
+    destruct Hwf as (H1 & H2 & H3 & H4 & H5 & H6 & Hav). unfold bind at 1. unfold be_ack. rewrite <- ?app_assoc.
     do 4 vstep.
     match goal with |- context [put_ranges ranges ++ ?t] => set (tl := t) end.
     assert (Hmin : Z.to_nat (Z.min (zlen ranges) (zlen (put_ranges ranges ++ tl) + 1)) = length ranges).
@@ -219,8 +220,9 @@ Proof.
     2:{ rewrite app_length. pose proof (put_ranges_len _ H4). unfold zlen in *. lia. }
     unfold tl.
     destruct ecn as [[[a b] c]|].
-    + destruct H6 as (Ha & Hb & Hc). rewrite <- ?app_assoc. do 3 vstep. reflexivity.
-    + reflexivity.
+    + destruct H6 as (Ha & Hb & Hc). rewrite <- ?app_assoc. do 3 vstep.
+      unfold ret at 1. cbn [ack_verify]. rewrite Hav. reflexivity.
+    + unfold ret at 1. cbn [ack_verify]. rewrite Hav. reflexivity.
   - destruct Hwf as (H1 & H2 & H3). rewrite <- ?app_assoc. do 3 vstep. reflexivity.
   - destruct Hwf as (H1 & H2). rewrite <- ?app_assoc. do 2 vstep. reflexivity.
   - (* Crypto *)
